@@ -177,6 +177,23 @@ class PowDevice:
         if cmd in (0xFF, 0xFA):
             self.switch_on_exit()
             return ("W",) if s.exit_drops_link else ("d", bytes([0x80, cmd]))
+        if cmd == 0x44:
+            self.received.append(("seed", a[2], a[3]))
+            return ("d", bytes([0x80, 0x44, a[2]]))
+        if cmd == 0x07:
+            pin = bytes(self.pinbuf[k] for k in sorted(self.pinbuf))
+            self.pinbuf = {}
+            self.received.append(("wipe", pin))
+            ok = getattr(s, "onboard_ok", True)
+            if ok:
+                s.onboarded = 1
+            return ("d", bytes([0x80, 2 if ok else 1]))
+        if cmd == 0xA0:
+            self.received.append(("sgx-onboard", a[3:]))
+            ok = getattr(s, "onboard_ok", True)
+            if ok:
+                s.onboarded = 1
+            return ("d", bytes([0x80, 0xA0, 1 if ok else 0]))
         return ("w", 0x6D00)
 
     def heartbeat(self, a):
